@@ -154,8 +154,13 @@ def minimise(mod, spec, key, budget=400):
     return shrink.shrink(spec, still, extra, budget=budget)
 
 
+def out_base():
+    """Where replays/evidence are written: /verif, or $VERIF_OUT (used when checks run against a mutated scratch copy)."""
+    return os.environ.get("VERIF_OUT") or env.VERIF
+
+
 def write_replay(pid, key, spec_min, spec_orig, viol, base_seed, index, digest):
-    d = os.path.join(env.VERIF, "replays", pid)
+    d = os.path.join(out_base(), "replays", pid)
     os.makedirs(d, exist_ok=True)
     h = hashlib.sha256(json.dumps(spec_min, sort_keys=True).encode()).hexdigest()[:10]
     safe = "".join(ch if ch.isalnum() or ch in "._-" else "_" for ch in key)[:80]
@@ -215,8 +220,8 @@ def evidence(pid, mod, tier, base_seed, total, n_viol, extra=None):
         "wall_s": round(total["wall_s"], 3),
         "violations": n_viol,
     }
-    os.makedirs(os.path.join(env.VERIF, "evidence"), exist_ok=True)
-    path = os.path.join(env.VERIF, "evidence", "%s.json" % pid)
+    os.makedirs(os.path.join(out_base(), "evidence"), exist_ok=True)
+    path = os.path.join(out_base(), "evidence", "%s.json" % pid)
     with open(path, "w") as f:
         json.dump(ev, f, indent=1, sort_keys=True, default=str)
     return path
